@@ -287,6 +287,20 @@ func init() {
 					}
 				}
 			}
+			// large documents: the tail of a document of 1.2 / 5 (thorough: 20) MiB is read like its head
+			sizes := []uint{1200 << 10, 5 << 20}
+			if env.Thorough() {
+				sizes = append(sizes, 20<<20)
+			}
+			for _, sz := range sizes {
+				for _, filler := range []string{"depends", "description", "contents", "comment", "deb-fields"} {
+					for _, tail := range []string{"unknown", "unknown-nested", "ref", "plain", "none"} {
+						if !yield(C16Case{Part: "large-doc", Kind: filler, Inject: tail, Present: sz}) {
+							return
+						}
+					}
+				}
+			}
 			if !env.Thorough() {
 				return
 			}
@@ -368,20 +382,6 @@ func init() {
 				for _, b := range docd[i+1:] {
 					if !yield(C16Case{Part: "expand-pair", Path: a.Path, Kind: a.Kind, Path2: b.Path, Kind2: b.Kind}) {
 						return
-					}
-				}
-			}
-			// large documents: the tail of a document of 1.2 / 5 (thorough: 20) MiB is read like its head
-			sizes := []uint{1200 << 10, 5 << 20}
-			if env.Thorough() {
-				sizes = append(sizes, 20<<20)
-			}
-			for _, sz := range sizes {
-				for _, filler := range []string{"depends", "description", "contents", "comment", "deb-fields"} {
-					for _, tail := range []string{"unknown", "unknown-nested", "ref", "plain", "none"} {
-						if !yield(C16Case{Part: "large-doc", Kind: filler, Inject: tail, Present: sz}) {
-							return
-						}
 					}
 				}
 			}
@@ -929,6 +929,8 @@ func checkC16Multi(env *engine.Env, c C16Case, documented map[string]bool, out *
 	}
 }
 
+var c16Pad = strings.Repeat("pad ", 250)
+
 // c16LargeDoc writes a document whose filler block of about size bytes sits between the head and the tail; it returns
 // the text and the number of filler items.
 func c16LargeDoc(filler, tail string, size int) (string, int) {
@@ -963,7 +965,8 @@ func c16LargeDoc(filler, tail string, size int) (string, int) {
 	case "deb-fields":
 		b.WriteString("deb:\n  fields:\n")
 		for b.Len() < size {
-			fmt.Fprintf(&b, "    X-Filler-%07d: v%d\n", n, n)
+			// long values: the YAML library's duplicate-key check is quadratic in the number of keys of one mapping
+			fmt.Fprintf(&b, "    X-Filler-%07d: %s v%d\n", n, c16Pad, n)
 			n++
 		}
 	}
@@ -1061,7 +1064,7 @@ func checkC16Large(env *engine.Env, c C16Case, out *engine.Outcome, viol func(st
 			}
 		case "deb-fields":
 			got = len(r.cfg.Deb.Fields)
-			wantLast = fmt.Sprintf("v%d", n-1)
+			wantLast = fmt.Sprintf("%s v%d", c16Pad, n-1)
 			last = r.cfg.Deb.Fields[fmt.Sprintf("X-Filler-%07d", n-1)]
 		case "description":
 			got = strings.Count(r.cfg.Description, "\n")
